@@ -213,6 +213,185 @@ pub fn prop(c: &Case, log: &mut CaseLog) -> Verdict {
     }
 }
 
+// ------------------------------------------------------------------------------------------------ across files
+
+/// A two-file project: `main.asm` imports `lib.asm` in one of several ways; both files use the library's symbols.
+#[derive(Clone, Debug, Hash, PartialEq, Eq, Serialize, Deserialize)]
+pub struct MultiCase {
+    /// 0: `.import *`, 1: `.import * as lns`, 2: `.import libk1, libl0`, 3: `.import libl0` inside a scope
+    pub import_kind: u8,
+    pub pad_main: u8,
+    pub pad_lib: u8,
+    pub indent_main: u8,
+    pub indent_lib: u8,
+    /// which symbol (0: constant, 1: label) and which of its occurrences the rename is requested at
+    pub symbol: u8,
+    pub sel: u32,
+}
+
+pub fn multi_project(c: &MultiCase) -> Project {
+    let ind = |n: u8| " ".repeat([2usize, 4, 4, 8][n as usize % 4]);
+    let (im, il) = (ind(c.indent_main), ind(c.indent_lib));
+    let mut lib = String::new();
+    lib.push_str(".const libk1 = 3\n");
+    lib.push_str(&"\n".repeat(c.pad_lib as usize % 3));
+    lib.push_str(&format!("{}lda #libk1\n", il));
+    lib.push_str("libl0: rts\n");
+    lib.push_str(&format!("{}jsr libl0\n{}.byte libk1, <libl0\n", il, il));
+    let mut main = String::new();
+    let q = if c.import_kind % 4 == 1 { "lns." } else { "" };
+    match c.import_kind % 4 {
+        0 => main.push_str(".import * from \"lib.asm\"\n"),
+        1 => main.push_str(".import * as lns from \"lib.asm\"\n"),
+        2 => main.push_str(".import libk1, libl0 from \"lib.asm\"\n"),
+        _ => main.push_str(".import libk1, libl0 from \"lib.asm\"\n"),
+    }
+    main.push_str(&"\n".repeat(c.pad_main as usize % 3));
+    main.push_str(&format!("{}lda #{}libk1\n", im, q));
+    main.push_str(&format!("mainl: {{\n{}    jsr {}libl0\n{}    .word {}libl0 + {}libk1\n}}\n", im, q, im, q, q));
+    main.push_str(&format!("{}jsr {}libl0\n", im, q));
+    let mut files = std::collections::BTreeMap::new();
+    files.insert("main.asm".to_string(), main);
+    files.insert("lib.asm".to_string(), lib);
+    Project { files, entry: "main.asm".into() }
+}
+
+fn summary_project(p: &Project) -> Option<(Vec<(String, usize, Vec<u8>)>, Vec<String>)> {
+    guarded(|| {
+        let a = assemble(p, AsmOptions::default());
+        let segs = a.segments().into_iter().map(|s| (s.name, s.start, s.data)).collect();
+        let mut msgs: Vec<String> = a.all_diags().into_iter().map(|d| d.msg).collect();
+        msgs.sort();
+        (segs, msgs)
+    })
+    .ok()
+}
+
+/// whole-word occurrences of `name` in `text`: (line, col, col_end), 0-based
+fn word_occurrences(text: &str, name: &str) -> Vec<(u64, u64, u64)> {
+    let mut out = vec![];
+    for (li, line) in text.split('\n').enumerate() {
+        let mut from = 0;
+        while let Some(i) = line[from..].find(name) {
+            let a = from + i;
+            let b = a + name.len();
+            let before = line[..a].chars().last();
+            let after = line[b..].chars().next();
+            let word = |c: Option<char>| c.map(|c| c.is_alphanumeric() || c == '_').unwrap_or(false);
+            if !word(before) && !word(after) {
+                out.push((li as u64, a as u64, b as u64));
+            }
+            from = b;
+        }
+    }
+    out
+}
+
+pub fn prop_multi(c: &MultiCase, log: &mut CaseLog) -> Verdict {
+    let proj = multi_project(c);
+    let before = summary_project(&proj);
+    match &before {
+        Some((_, msgs)) if msgs.is_empty() => {}
+        _ => return Verdict::fail("harness-project-does-not-build", format!("{:?}\n{:?}", proj.files, before)),
+    }
+    let old_name = if c.symbol % 2 == 0 { "libk1" } else { "libl0" };
+    let new_name = "zzrenamed9";
+    // every occurrence, per file
+    let mut occ: Vec<(String, (u64, u64, u64))> = vec![];
+    for (f, t) in &proj.files {
+        for o in word_occurrences(t, old_name) {
+            occ.push((f.clone(), o));
+        }
+    }
+    let (at_file, at) = occ[((c.sel as u64 * occ.len() as u64) >> 32) as usize].clone();
+    log.label(format!("import-kind:{}", c.import_kind % 4));
+    log.label(format!("requested-in:{}", at_file));
+    let coincide = occ.iter().any(|(f, o)| occ.iter().any(|(g, q)| f != g && o == q));
+    log.label_if(coincide, "same-range-in-both-files");
+    log.nontrivial = true;
+    let sc = crate::sut::cli::Scratch::new("c15m");
+    sc.write("mos.toml", b"[build]\nentry = \"main.asm\"\n");
+    for (f, t) in &proj.files {
+        sc.write(f, t.as_bytes());
+    }
+    let mut client = match crate::sut::lsp::LspClient::start(&sc.dir) {
+        Ok(c) => c,
+        Err(_) => {
+            log.label("inconclusive");
+            return Verdict::Pass;
+        }
+    };
+    let t = Duration::from_secs(20);
+    let uri_of = |f: &str| file_uri(&sc.dir, f);
+    client.did_open(&uri_of("main.asm"), &proj.files["main.asm"]);
+    client.did_open(&uri_of("lib.asm"), &proj.files["lib.asm"]);
+    let pos = json!({"line": at.0, "character": at.1 + 1});
+    let describe = |what: &str, extra: &str| format!("{}\n--- main.asm ---\n{}\n--- lib.asm ---\n{}\nrename of `{}` requested at {}:{}:{}\n{}", what, proj.files["main.asm"], proj.files["lib.asm"], old_name, at_file, at.0, at.1 + 1, extra);
+    let run = (|| -> Result<Verdict, LspErr> {
+        let prep = client.request("textDocument/prepareRename", json!({"textDocument": {"uri": uri_of(&at_file)}, "position": pos}), t)?;
+        if prep.is_null() {
+            return Ok(Verdict::Discard("server offers no rename here".into()));
+        }
+        let resp = client.request("textDocument/rename", json!({"textDocument": {"uri": uri_of(&at_file)}, "position": pos, "newName": new_name}), t)?;
+        let changes = resp["changes"].as_object().cloned().unwrap_or_default();
+        if changes.is_empty() {
+            return Ok(Verdict::fail("rename-offered-but-no-edit|multi-file", describe("no edits", &resp.to_string())));
+        }
+        // exactly the occurrences of the (unique) name, in both files
+        let mut got: BTreeSet<(String, (u64, u64, u64))> = BTreeSet::new();
+        for (u, es) in &changes {
+            let f = proj.files.keys().find(|f| u.ends_with(&format!("/{}", f)));
+            let f = match f {
+                Some(f) => f.clone(),
+                None => return Ok(Verdict::fail("edit-for-unknown-document|multi-file", describe("", &resp.to_string()))),
+            };
+            for e in es.as_array().cloned().unwrap_or_default() {
+                let r = &e["range"];
+                got.insert((f.clone(), (r["start"]["line"].as_u64().unwrap_or(9999), r["start"]["character"].as_u64().unwrap_or(9999), r["end"]["character"].as_u64().unwrap_or(9999))));
+            }
+        }
+        let want: BTreeSet<(String, (u64, u64, u64))> = occ.iter().cloned().collect();
+        if got != want {
+            let missing: Vec<_> = want.difference(&got).collect();
+            let extra: Vec<_> = got.difference(&want).collect();
+            let k = if !missing.is_empty() { "occurrence-not-renamed|multi-file" } else { "edit-outside-the-symbol's-occurrences|multi-file" };
+            return Ok(Verdict::fail(k, describe(&format!("missing {:?} unexpected {:?}", missing, extra), &resp.to_string())));
+        }
+        let mut renamed = proj.clone();
+        for (u, es) in &changes {
+            let f = proj.files.keys().find(|f| u.ends_with(&format!("/{}", f))).unwrap().clone();
+            match apply_edits(&proj.files[&f], es.as_array().map(|a| a.as_slice()).unwrap_or(&[])) {
+                Some(t2) => {
+                    renamed.files.insert(f, t2);
+                }
+                None => return Ok(Verdict::fail("edits-overlap-or-out-of-range|multi-file", describe("edits cannot be applied", &resp.to_string()))),
+            }
+        }
+        let after = summary_project(&renamed);
+        if before != after {
+            return Ok(Verdict::fail("renamed-project-builds-differently|multi-file", describe(&format!("renamed: {:?}\nafter: {:?}", renamed.files, after.as_ref().map(|a| &a.1)), &resp.to_string())));
+        }
+        Ok(Verdict::Pass)
+    })();
+    match run {
+        Ok(v) => v,
+        Err(LspErr::Timeout) => {
+            log.label("inconclusive");
+            Verdict::Pass
+        }
+        Err(LspErr::Died(st, tail)) => Verdict::fail(format!("server-died|{}", st), describe("", &tail)),
+        Err(LspErr::Error(e)) => Verdict::fail("error-response|multi-file", describe("", &e.to_string())),
+    }
+}
+
+pub fn multi_strategy() -> impl Strategy<Value = MultiCase> {
+    (0u8..3, 0u8..3, 0u8..3, 0u8..4, 0u8..4, 0u8..2, any::<u32>()).prop_map(|(import_kind, pad_main, pad_lib, indent_main, indent_lib, symbol, sel)| MultiCase { import_kind, pad_main, pad_lib, indent_main, indent_lib, symbol, sel })
+}
+
+pub fn multi_to_json(c: &MultiCase) -> Value {
+    json!({"multi": c, "files": multi_project(c).files})
+}
+
 pub fn to_json(c: &Case) -> Value {
     json!({"entropy": c.entropy, "sel": c.sel, "program": prepare(&c.entropy).map(|p| p.text)})
 }
@@ -222,16 +401,29 @@ pub fn strategy() -> impl Strategy<Value = Case> {
 }
 
 pub fn run_check(ctx: &mut Ctx) {
-    ctx.rule = "error-free generator programs as for C16 (shadowed names, dotted and `super` paths, macros and parameters, loops, untaken branches, string interpolation) x one identifier occurrence (definition site or any path component of a use) x a fresh new name; oracle: where prepareRename offers a rename, the WorkspaceEdit must edit exactly the occurrences the documented scoping binds to that symbol (uses in never-emitted code optional; nothing else - not `super`, not equally named symbols), the edited program must assemble to identical bytes and diagnostics, and renaming back at the definition must restore the original text. non-trivial = symbol with >= 2 occurrences".into();
+    ctx.rule = "error-free generator programs as for C16 (shadowed names, dotted and `super` paths, macros and parameters, loops, untaken branches, string interpolation) x one identifier occurrence (definition site or any path component of a use) x a fresh new name; oracle: where prepareRename offers a rename, the WorkspaceEdit must edit exactly the occurrences the documented scoping binds to that symbol (uses in never-emitted code optional; nothing else - not `super`, not equally named symbols), the edited program must assemble to identical bytes and diagnostics, and renaming back at the definition must restore the original text. non-trivial = symbol with >= 2 occurrences. second campaign: two-file projects (main imports lib with `*`, `* as ns` or a specific list; constant and label of lib used in both files at varying, sometimes identical, positions): the edits must be exactly the whole-word occurrences of the name in both files and the renamed project must build identically".into();
     if !have_mos() {
         ctx.health(false, "mos binary not built (MOS_BIN)");
         return;
     }
     let n = ctx.tier.pick(4800, 120_000);
     ctx.campaign_parallel("rename", n, 16, strategy, prop, to_json);
+    // two-file projects: the symbol is defined in an imported file and used in both (enumerable: 3*3*3*4*4*2 shapes x
+    // occurrences; sampled)
+    let n = ctx.tier.pick(600, 6_000);
+    ctx.campaign_parallel("rename-across-files", n, 16, multi_strategy, prop_multi, multi_to_json);
+    let k = ctx.label_count("same-range-in-both-files");
+    ctx.health(k > 0, "no case with an occurrence at the same range in both files");
 }
 
 pub fn replay(ctx: &mut Ctx, case: &Value) {
+    if let Some(m) = case.get("multi") {
+        match serde_json::from_value::<MultiCase>(m.clone()) {
+            Ok(c) => ctx.replay_one(&c, prop_multi, case.clone()),
+            Err(e) => ctx.health(false, format!("replay case does not deserialize: {}", e)),
+        }
+        return;
+    }
     let c: Case = match serde_json::from_value(json!({"entropy": case["entropy"], "sel": case["sel"]})) {
         Ok(c) => c,
         Err(e) => {
